@@ -19,6 +19,8 @@ func vs_any[T any](f func(T) bool) bool { return true }
 func vs_fresh(p any) bool { return true }
 func vs_modifies(p any) {}
 func vs_visited(n int, k any) bool { return false }
+// vs_ranged[M](n): the map the n-th map range statement of the enclosing function iterates over.
+func vs_ranged[M any](n int) M { var z M; return z }
 // vs_done(n): number of completed iterations of the n-th loop (a range over a slice) of the enclosing function.
 func vs_done(n int) int { return 0 }
 // vs_pos(n): byte offset reached by the n-th range-over-string statement of the enclosing function.
